@@ -490,6 +490,44 @@ var shapes = []string{
 	`$cnt = count([1, 2, 3]); $cnt++; $e = count([]); $e++;`,
 }
 
+// calls that FAIL half-way (error paths often skip the clean-up the success
+// path does): each is wrapped so that program A keeps going
+var errorPaths = []string{
+	`$big = 1e308 * 10; $r = json_encode(["id" => 7, "name" => "widget", "stats" => $big]);`,
+	`$big = 1e308 * 10; $r = json_encode(["a" => [1, 2, [3, $big]], "b" => "x"]);`,
+	`$o = new stdClass(); $o->a = 1; $o->inf = 1e308 * 10; $r = json_encode($o);`,
+	`$r = json_decode("{\"a\": [1, 2, {\"b\": ");`,
+	`$r = json_decode("[1, 2", true);`,
+	`try { $r = preg_match("/(unclosed", "subject"); } catch (\Throwable $e) { }`,
+	`try { $r = preg_replace("/[a-/", "", "subject"); } catch (\Throwable $e) { }`,
+	`try { $r = unserialize("a:2:{i:0;s:5:\"ab"); } catch (\Throwable $e) { }`,
+	`try { $r = intdiv(1, 0); } catch (\Throwable $e) { }`,
+	`try { $r = 1 % 0; } catch (\Throwable $e) { }`,
+	`try { $r = str_repeat("x", -1); } catch (\Throwable $e) { }`,
+	`try { $r = array_combine([1, 2], [1]); } catch (\Throwable $e) { }`,
+	`try { $r = sprintf("%d %d %s", 1); } catch (\Throwable $e) { }`,
+	`try { $r = implode(",", "not-an-array"); } catch (\Throwable $e) { }`,
+	`try { $r = array_map("no_such_callback", [1, 2]); } catch (\Throwable $e) { }`,
+	`try { $r = (new NoSuchClassForErrorPath())->m(); } catch (\Throwable $e) { }`,
+	`try { $r = no_such_function_for_error_path(1); } catch (\Throwable $e) { }`,
+	`function err_thrower() { throw new Exception("inside"); } try { $r = array_map(function($x) { return err_thrower(); }, [1, 2, 3]); } catch (\Throwable $e) { }`,
+	`try { usort($GLOBALS_missing, function($a, $b) { return 0; }); } catch (\Throwable $e) { }`,
+	`try { $s = "abc"; $r = $s->noMethod(); } catch (\Throwable $e) { }`,
+	`try { ob_start(); echo "partial"; throw new Exception("while buffering"); } catch (\Throwable $e) { ob_end_clean(); }`,
+	`try { $r = var_export(fopen_missing_fn(), true); } catch (\Throwable $e) { }`,
+}
+
+const moreProbe = `
+echo "json2=", json_encode(["x" => 1, "y" => [1, 2, 3]]), "|", json_encode("s"), "|", json_encode([1.5, true, null]), "\n";
+echo "jsondec=", json_encode(json_decode('{"a":[1,{"b":2}]}', true)), "\n";
+echo "preg=", preg_match("/a(b+)c/", "xabbbc", $pm), "|", $pm[1], "|", preg_replace("/b+/", "B", "abbbc"), "\n";
+echo "ser=", serialize(["a" => 1, "b" => [true, null]]), "|", json_encode(unserialize(serialize(["k" => "v"]))), "\n";
+echo "fmt=", sprintf("%05d|%s|%.2f|%x", 42, "s", 3.14159, 255), "|", number_format(1234567.891, 2), "\n";
+echo "str2=", str_repeat("ab", 3), "|", implode(",", [1, 2, 3]), "|", strtoupper("abc"), "|", str_pad("7", 3, "0", STR_PAD_LEFT), "\n";
+echo "arr2=", json_encode(array_map(function($x) { return $x * 2; }, [1, 2, 3])), "|", json_encode(array_combine(["a", "b"], [1, 2])), "\n";
+echo "div=", 7 % 3, "|", 2 ** 10, "|", 7 / 2, "\n";
+`
+
 const basicsProbe = `
 echo "lit=", 0, "|", 1, "|", 2, "|", 3, "|", 7, "|", 10, "|", -1, "\n";
 echo "count=", count([]), "|", count([1]), "|", count([1, 2, 3]), "\n";
@@ -508,7 +546,7 @@ $idxArr = [10, 20, 30]; $idxStr = "xyz"; echo "idx=", $idxArr[0], "|", $idxArr[2
 `
 
 func genPair(r *verifsim.Rng) (a, b string, parts []string) {
-	switch r.Intn(6) {
+	switch r.Intn(7) {
 	case 0, 1:
 		return sameNames(r, "A", false), sameNames(r, "B", true), []string{"same_named_definitions"}
 	case 2:
@@ -519,6 +557,14 @@ func genPair(r *verifsim.Rng) (a, b string, parts []string) {
 			ab.WriteString(shapes[i] + "\n")
 		}
 		return ab.String(), "<?php\n" + basicsProbe, []string{"in_place_update_shapes"}
+	case 4:
+		// A: a few calls that fail half-way; B: the basics plus the same builtin families used successfully
+		var ab strings.Builder
+		ab.WriteString("<?php\n")
+		for _, i := range r.Perm(len(errorPaths))[:2+r.Intn(4)] {
+			ab.WriteString(errorPaths[i] + "\n")
+		}
+		return ab.String(), "<?php\n" + basicsProbe + moreProbe, []string{"error_paths"}
 	case 3:
 		// A: a whole file of the script corpus (run from its path); B: the basics
 		if c := loadCorpusAll(); len(c) > 0 {
